@@ -8,12 +8,12 @@ W=$(mktemp -d /tmp/rebase.XXXXXX); rmdir "$W"
 git -C /repo worktree add -q -f --detach "$W" "$OLD"
 trap 'git -C /repo worktree remove --force "$W" >/dev/null 2>&1; git -C /repo worktree prune' EXIT
 cd "$W"
-git apply "$P"
+patch -p1 -s -f --no-backup-if-mismatch -i "$P"
 touched_header=0; git status --short | grep -q " qtlogger.h$" && touched_header=1
 git add -A; git -c user.name=x -c user.email=x@x commit -qm tmp
 C=$(git rev-parse HEAD)
 git checkout -q --detach $(git -C /repo rev-parse HEAD)
-if ! git -c user.name=x -c user.email=x@x cherry-pick -n -X theirs --strategy=recursive $C >/dev/null 2>&1; then
+if ! git -c user.name=x -c user.email=x@x cherry-pick -n $C >/dev/null 2>&1; then
   # conflicts in the generated header are expected: take any side, it is regenerated below
   if git status --short | grep -v "qtlogger.h$" | grep -q "^\(UU\|AA\|DU\|UD\)"; then echo "CONFLICT $P"; exit 1; fi
   git checkout --theirs qtlogger.h 2>/dev/null || true
